@@ -24,7 +24,7 @@ FILE_OF = {"object": "o0.o", "archive": "libr.a", "thin-index": "libt.a", "thin-
            "script": "in.ld", "script-input": "o3.o", "dash-l-archive": "libl.a"}
 LATER_POINTS = ["inputs-loaded", "symbols-loaded", "symbols-resolved", "sections-resolved", "layout-done",
                 "output-created", "sections-written", "output-written", "before-verify-inputs"]
-MODS = ["rewrite", "append", "rename-replace", "touch", "recreate", "truncate"]
+MODS = ["rewrite", "append", "rename-replace", "rename-replace-older", "touch", "touch-backward", "recreate", "truncate"]
 
 
 def backdate(path, secs=10):
@@ -101,8 +101,19 @@ class C20(Check):
             with open(tmp, "wb") as f:
                 f.write(data)
             os.rename(tmp, path)
+        elif mod == "rename-replace-older":
+            # Replacement that carries an *older* timestamp (an artefact restored from a build cache, `cp -p`).
+            tmp = path + ".new"
+            with open(tmp, "wb") as f:
+                f.write(data)
+            st_ = os.stat(path)
+            os.utime(tmp, ns=(st_.st_atime_ns - 3600 * 10**9, st_.st_mtime_ns - 3600 * 10**9))
+            os.rename(tmp, path)
         elif mod == "touch":
             os.utime(path, None)
+        elif mod == "touch-backward":
+            st_ = os.stat(path)
+            os.utime(path, ns=(st_.st_atime_ns, st_.st_mtime_ns - 3600 * 10**9))
         elif mod == "recreate":
             os.unlink(path)
             with open(path, "wb") as f:
